@@ -49,6 +49,7 @@ static void hook_cb(const char* ev, const void* ctx, long long a, long long b, l
 /* ------------------------------------------------------------------ frame construction */
 typedef struct { const char* family; unsigned seed; int nblocks, fcsBytes, singleSeg, checksum; unsigned wexp, wmant; } finfo;
 
+static int g_wantHufEq = 0; static unsigned g_hufEqHits = 0;
 static int build_block(int last, size_t target, int litMode, int litFmt, int style, int modes[3], int nbFmt, unsigned cLL, unsigned cML, unsigned cOffLog, size_t maxSeq, size_t* pos) {
     size_t litTotal = 0, n, ls, ss; unsigned char* d = blk;
     n = fa_gen_seqs(&F, seqs, maxSeq, target, &litTotal, style, cLL, cML, cOffLog);
@@ -56,6 +57,10 @@ static int build_block(int last, size_t target, int litMode, int litFmt, int sty
     if (litMode == FA_LRLE && litTotal > 0) memset(lits, lits[0], litTotal);
     if (litTotal == 0 && litMode != FA_LRAW) litMode = FA_LRAW;
     ls = fa_literals(&F, d, 400000, lits, litTotal, litMode, litFmt);
+    if (g_wantHufEq && litTotal >= 6 && litTotal < 1000) {     /* look for literals whose Huffman-compressed size (tree + stream) equals their own size */
+        int tries; for (tries = 0; tries < 300; tries++) { size_t l2; fa_gen_literals(&F, lits, litTotal, tries & 1); { size_t j; unsigned a = 2 + fa_pick(&F, 6); for (j = 0; j < litTotal; j++) lits[j] = (unsigned char)(F.litBase + lits[j] % a); }
+            l2 = fa_literals(&F, d, 400000, lits, litTotal, FA_LHUF, 0); if (l2 == 3 + litTotal) { ls = l2; g_hufEqHits++; break; } }
+        if (tries == 300) ls = fa_literals(&F, d, 400000, lits, litTotal, litMode, litFmt); }
     if (ls == 0) { ls = fa_literals(&F, d, 400000, lits, litTotal, FA_LRAW, litFmt % 3); if (ls == 0) return 0; }
     ss = fa_sequences(&F, d + ls, 400000 - ls, seqs, n, modes, nbFmt);
     if (ss == 0) return 0;
@@ -69,9 +74,10 @@ static int build_block(int last, size_t target, int litMode, int litFmt, int sty
 /* returns 1 and fills frame/frameSize; content is defined later by the reference decoder */
 static int build_frame(const char* family, unsigned seed, finfo* fi) {
     static unsigned char body[1]; size_t pos = 0, hdrMax = 18, bodyStart; int nb, b; unsigned wexp, wmant; size_t window; int singleSeg = 0, checksum, fcsBytes; size_t total = 0; size_t sizes[400]; int types[400];
-    int isTail = !strcmp(family, "rawtail");
-    int isRle = !strcmp(family, "rletab") || isTail, isLong = !strcmp(family, "longlen"), isRep = !strcmp(family, "repeat"), isBig = !strcmp(family, "bigwin"), isHdr = !strcmp(family, "headers"), isSplit = !strcmp(family, "splitlit");
+    int isTail = !strcmp(family, "rawtail"); int isHufEq = !strcmp(family, "hufeq");
+    int isRle = !strcmp(family, "rletab") || isTail, isLong = !strcmp(family, "longlen"), isRep = !strcmp(family, "repeat"), isBig = !strcmp(family, "bigwin"), isHdr = !strcmp(family, "headers") || isHufEq, isSplit = !strcmp(family, "splitlit");
     (void)body;
+    g_wantHufEq = isHufEq;
     memset(&F, 0, sizeof(F)); F.x = seed * 2654435761u + 99; F.rep[0] = 1; F.rep[1] = 4; F.rep[2] = 8; F.litBase = (seed * 37u) & 127;
     wexp = isBig ? 15 + fa_pick(&F, 3) : (isLong || isSplit) ? 7 + fa_pick(&F, 4) : fa_pick(&F, 9); wmant = fa_pick(&F, 3) ? 0 : fa_pick(&F, 8);
     window = ((size_t)1 << (10 + wexp)); window += (window >> 3) * wmant;
@@ -86,8 +92,8 @@ static int build_frame(const char* family, unsigned seed, finfo* fi) {
         /* > 16 MiB of history out of RLE / raw blocks (cheap to carry), then compressed blocks whose offsets reach far back */
         while (need > 0 && nb < 380) { size_t s = need > 131072 ? 131072 : need; types[nb] = (nb % 9 == 4) ? 0 : 1; sizes[nb] = s; need -= s; nb++; }
         { int k; for (k = 0; k < 3 && nb < 400; k++) { types[nb] = 2; sizes[nb] = 20000 + fa_pick(&F, 100000); nb++; } } }
-    else for (b = 0; b < nb; b++) { unsigned r = fa_rnd(&F); types[b] = isHdr ? (int)(r % 3) : (isRle || isLong || isRep || isSplit) ? 2 : ((r % 8) == 0 ? 0 : (r % 8) == 1 ? 1 : 2);
-        sizes[b] = isHdr ? fa_pick(&F, 300) : (isLong || isSplit) ? F.blockMax - fa_pick(&F, 1000) : (r & 64) ? F.blockMax - fa_pick(&F, 3) : 1 + fa_pick(&F, (unsigned)F.blockMax);
+    else for (b = 0; b < nb; b++) { unsigned r = fa_rnd(&F); types[b] = g_wantHufEq ? 2 : isHdr ? (int)(r % 3) : (isRle || isLong || isRep || isSplit) ? 2 : ((r % 8) == 0 ? 0 : (r % 8) == 1 ? 1 : 2);
+        sizes[b] = g_wantHufEq ? 10 + fa_pick(&F, 70) : isHdr ? fa_pick(&F, 300) : (isLong || isSplit) ? F.blockMax - fa_pick(&F, 1000) : (r & 64) ? F.blockMax - fa_pick(&F, 3) : 1 + fa_pick(&F, (unsigned)F.blockMax);
         if (sizes[b] > F.blockMax) sizes[b] = F.blockMax; if (types[b] == 2 && sizes[b] < 8) sizes[b] = 8 < F.blockMax ? 8 : F.blockMax; }
     /* single segment: the window is the content size, and so is the block size limit: plan sizes first */
     for (b = 0; b < nb; b++) total += sizes[b];
@@ -129,7 +135,7 @@ static int build_frame(const char* family, unsigned seed, finfo* fi) {
     if (checksum) { frame[pos++] = 0; frame[pos++] = 0; frame[pos++] = 0; frame[pos++] = 0; }
     {   unsigned char hdr[32]; size_t hs = fa_frame_header(hdr, total, fcsBytes, singleSeg, wexp, wmant, 0, 0, checksum, 0);
         memmove(frame + hs, frame + bodyStart, pos - bodyStart); memcpy(frame, hdr, hs); frameSize = hs + (pos - bodyStart); }
-    fi->family = family; fi->seed = seed; fi->nblocks = nb; fi->fcsBytes = fcsBytes; fi->singleSeg = singleSeg; fi->checksum = checksum; fi->wexp = wexp; fi->wmant = wmant;
+    fi->family = g_wantHufEq ? "hufeq" : family; fi->seed = seed; fi->nblocks = nb; fi->fcsBytes = fcsBytes; fi->singleSeg = singleSeg; fi->checksum = checksum; fi->wexp = wexp; fi->wmant = wmant;
     return 1;
 }
 
@@ -327,6 +333,11 @@ static void do_mutations(const finfo* fi, int idx, int nmut) {
             dd = ZSTD_createDDict(gs.p, n); if (dd) { size_t r2 = ZSTD_decompress_usingDDict(d2, out, 70000, orig, osz, dd); if (!ZSTD_isError(r2) && r2 > 70000) nOver++; ZSTD_freeDDict(dd); }
             { size_t r2 = ZSTD_decompress_usingDict(d2, out, 70000, orig, osz, gs.p, n); if (!ZSTD_isError(r2) && r2 > 70000) nOver++; }
             { size_t r2 = ZSTD_DCtx_loadDictionary(d2, gs.p, n); (void)r2; }
+            if (m == 0) { size_t dsz; for (dsz = 0; dsz <= 9 && dsz <= n; dsz++) {      /* very short dictionaries (each in its own exactly-sized block) for every decoder, legacy ones included */
+                    gbuf gdict = galloc(dsz); size_t r2; memcpy(gdict.p, gs.p, dsz);
+                    r2 = ZSTD_decompress_usingDict(d2, out, 70000, orig, osz, gdict.p, dsz); if (!ZSTD_isError(r2) && r2 > 70000) nOver++;
+                    dd = ZSTD_createDDict(gdict.p, dsz); if (dd) { r2 = ZSTD_decompress_usingDDict(d2, out, 70000, orig, osz, dd); if (!ZSTD_isError(r2) && r2 > 70000) nOver++; ZSTD_freeDDict(dd); }
+                    gfree(&gdict); } }
             ZSTD_freeDCtx(d2); gfree(&gd); }
         gfree(&gs);
     }
